@@ -33,6 +33,9 @@ CLAIMED = {
  "C16": dict(technique="static analysis: error-flow and dominance rules for shard error accounting, path-sensitive simulation (PATHSIM) that a non-nil tier error never ends in a nil return, sibling checklist over the four proxy handlers, enum coverage of store answer codes, dominance/loop-shape rules for the merged fetch iterator",
              text="Every path of the proxy read code is checked for the bookkeeping that makes an incomplete answer visible: collected shard errors decide completeness, the partial error survives Ingestor.Search and reaches all four handlers, the fetch iterator pairs documents with ids by equality. The content of the merged result is not decided.",
              note="Trusted: go/ssa; PATHSIM bounds; errors.Is treated as an unknown boolean.", ref="§3 C16"),
+ "C19": dict(technique="static analysis: dominance order and error-flow of the atomic file write, symmetric key-codec rules (one separator, first-separator split, Itoa/Atoi), field coverage of the JSON shadow struct, done-after-loop order, sibling rule for the two parse sites (same parser, same mapping provider), provenance of MergeQPRs arguments",
+             text="The persistence protocol, the key codec of persisted aggregation bins, the resume path and the merge arguments are the places where the asynchronous result can silently diverge from the synchronous one; each is decided structurally on all paths. Equality of results is not decided.",
+             note="Trusted: go/ssa; string-splitting functions are classified by name (first-separator vs all).", ref="§3 C19"),
 }
 
 NOT_YET = "check not built yet in this round (planned in DESIGN.md §3); nothing is claimed for it"
